@@ -57,3 +57,93 @@ HARNESS(h_c09_split) {
     OI(cls); OI(m.face_point_ids.size());
     for (auto& f : m.face_point_ids) { OI(f.size()); for (unsigned v : f) OI(v); }
 }
+
+// ---------------------------------------------------------------------------------------------------------------------------------
+// K4: the orchestration of cell_divider::divide_cell (what it does around its stages): the stages themselves are replaced by the
+// stand-ins below (irsym maps the real symbols to them), each of which can be told to fail the way the real stage fails (by throwing an
+// exception derived from std::exception). The real divide_cell body runs: compaction of the mother, target volumes of the daughters,
+// random properties, conversion of every failure into "no division".
+#include "epithelial_cell.hpp"
+#include "ecm_cell.hpp"
+#include "lumen_cell.hpp"
+#include "nucleus_cell.hpp"
+#include "static_cell.hpp"
+#include "local_mesh_refiner.hpp"
+#include "initial_triangulation.hpp"
+
+static long g_k4_fail_stage = 0, g_k4_fail_kind = 0, g_k4_stage_reached = 0;
+static void k4_maybe_throw(long stage) {
+    g_k4_stage_reached = stage;
+    if (g_k4_fail_stage != stage) return;
+    switch (g_k4_fail_kind) {
+        case 0: throw division_exception("stage failed");
+        case 1: throw mesh_integrity_exception("stage failed");
+        case 2: throw intialization_exception("stage failed");
+        default: throw std::bad_alloc();
+    }
+}
+mesh k4_add_intersection_points(cell_ptr c, const vec3& p, const vec3& n) {
+    k4_maybe_throw(1);
+    mesh m;
+    for (const node& nd : c->get_node_lst()) { m.node_pos_lst.push_back(nd.pos().dx()); m.node_pos_lst.push_back(nd.pos().dy()); m.node_pos_lst.push_back(nd.pos().dz()); }
+    for (int k = 0; k < 3; k++) { m.node_pos_lst.push_back(p.dx()); m.node_pos_lst.push_back(p.dy()); m.node_pos_lst.push_back(p.dz() + k); }
+    for (const face& f : c->get_face_lst()) { auto [a, b, d] = f.get_node_ids(); m.face_point_ids.push_back({a, b, d}); }
+    return m;
+}
+void k4_divide_faces(mesh& m, const unsigned thr) { k4_maybe_throw(2); }
+void k4_coarse_triangulation(mesh& m) { g_k4_stage_reached = 3; }
+std::pair<vec3, mat33> k4_map_points_to_xy_plane(mesh& m, const unsigned thr, const vec3& n) { g_k4_stage_reached = 4; return std::make_pair(vec3(0., 0., 0.), mat33::identity()); }
+void k4_triangulate_division_interface(const double l_min, mesh& m, const unsigned t1, const unsigned t2, const vec3& n) { k4_maybe_throw(5); }
+void k4_map_points_to_division_plane(mesh& m, const unsigned thr, const vec3& t, const mat33& r) { g_k4_stage_reached = 6; }
+std::pair<cell_ptr, cell_ptr> k4_create_daughter_cells(cell_ptr c, mesh& m, const unsigned t1, const unsigned t2, const vec3& n, const vec3& ctr) {
+    k4_maybe_throw(7);
+    static const double P[12] = {0, 0, 0, 1, 0, 0, 0, 1, 0, 0, 0, 1};
+    static const unsigned F[12] = {0, 2, 1, 0, 1, 3, 0, 3, 2, 1, 2, 3};
+    mesh m1, m2;
+    for (int k = 0; k < 4; k++) {
+        m1.node_pos_lst.insert(m1.node_pos_lst.end(), {ctr.dx() + 0.4 * P[3 * k] + 0.05, ctr.dy() + 0.4 * P[3 * k + 1], ctr.dz() + 0.4 * P[3 * k + 2]});
+        m2.node_pos_lst.insert(m2.node_pos_lst.end(), {ctr.dx() - 0.4 * P[3 * k] - 0.05, ctr.dy() + 0.4 * P[3 * k + 1], ctr.dz() + 0.4 * P[3 * k + 2]});
+    }
+    for (int f = 0; f < 4; f++) { m1.face_point_ids.push_back({F[3 * f], F[3 * f + 1], F[3 * f + 2]}); m2.face_point_ids.push_back({F[3 * f], F[3 * f + 1], F[3 * f + 2]}); }
+    cell_ptr d1 = c->get_cell_same_type(m1), d2 = c->get_cell_same_type(m2);
+    d1->initialize_cell_properties(true); d2->initialize_cell_properties(true);
+    return std::make_pair(d1, d2);
+}
+void k4_refine_mesh(const local_mesh_refiner* self, cell_ptr c) { k4_maybe_throw(8); }
+
+static void k4_dump_mother(vio* io, const cell& c) {
+    OI(c.get_nb_of_nodes()); OI(c.get_nb_of_faces());
+    for (const node& n : c.get_node_lst()) if (n.is_used()) OV(n.pos());
+    for (const face& f : c.get_face_lst()) if (f.is_used()) { auto [a, b, d] = f.get_node_ids(); OI(a); OI(b); OI(d); }
+    OD(c.get_target_volume()); OD(c.get_volume());
+}
+
+// iin: [class of the mother (0..4), failing stage (0 none), kind of exception]; din: [target volume of the mother]
+// iout: [division happened, last stage reached, class of d1, class of d2, ...mother dump ints]; dout: [target volume d1, d2 (if divided), mother dump]
+HARNESS(h_c09_orchestrate) {
+    static const double P6[18] = {1, 0, 0, -1, 0, 0, 0, 1, 0, 0, -1, 0, 0, 0, 1, 0, 0, -1};
+    static const unsigned F6[24] = {0, 2, 4, 2, 1, 4, 1, 3, 4, 3, 0, 4, 2, 0, 5, 1, 2, 5, 3, 1, 5, 0, 3, 5};
+    std::vector<double> pos(P6, P6 + 18); std::vector<unsigned> ids(F6, F6 + 24);
+    auto ct = std::make_shared<cell_type_parameters>();
+    ct->global_type_id_ = (short) io->iin[0];
+    face_type_parameters ft; ct->add_face_type(ft); ct->add_face_type(ft); ct->add_face_type(ft);
+    cell_ptr c;
+    switch (io->iin[0]) {
+        case 0: c = std::make_shared<epithelial_cell>(pos, ids, 7u, ct); break;
+        case 1: c = std::make_shared<ecm_cell>(pos, ids, 7u, ct); break;
+        case 2: c = std::make_shared<lumen_cell>(pos, ids, 7u, ct); break;
+        case 3: c = std::make_shared<nucleus_cell>(pos, ids, 7u, ct); break;
+        default: c = std::make_shared<static_cell>(pos, ids, 7u, ct); break;
+    }
+    c->initialize_cell_properties(true);
+    c->set_target_volume(io->din[0]);
+    g_k4_fail_stage = io->iin[1]; g_k4_fail_kind = io->iin[2]; g_k4_stage_reached = 0;
+    local_mesh_refiner lmr(0.3, 0.9, false);
+    auto r = cell_divider::divide_cell(c, 0.3, lmr);
+    OI(r.has_value()); OI(g_k4_stage_reached);
+    if (r.has_value()) {
+        OI(r->first->get_cell_type_id()); OI(r->second->get_cell_type_id());
+        OD(r->first->get_target_volume()); OD(r->second->get_target_volume());
+    }
+    k4_dump_mother(io, *c);
+}
